@@ -79,3 +79,7 @@ def compute_dynamics_times(inp):
                             'observed_times': got, 'required_times': want}
                 cases.append((ra, N, t0, dt))
     return {'violates': False, 'cases': len(cases)}
+
+
+# thorough tier (bounded native sweeps): (function, inputs, obligation of the open finding it reproduces or None)
+THOROUGH = [('steps_search', {}, None), ('compute_dynamics_times', {}, None)]
